@@ -76,10 +76,14 @@ void Ctx::op(const char *fmt, ...) {
     if (trace.size() <= 6000) { if (!trace.empty()) trace += "; "; trace += buf; if (trace.size() > 6000) trace += " ..."; }
 }
 
+static int g_san_seen = 0;
 void Ctx::failv(uint32_t cls, const char *sig, const char *fmt, va_list ap) {
     char buf[2048];
     vsnprintf(buf, sizeof buf, fmt, ap);
     if (deciding & cls) throw CaseFail{sig, buf, cls};
+    // about to abandon the case for a failure that is not this mode's business: a pending
+    // sanitizer report must not get lost with it when memory errors ARE this mode's business
+    if ((deciding & MEM) && !(noteonly & MEM) && g_san_reports != g_san_seen) check_san("the operation that also failed another property's check");
     throw CaseStop{std::string(cls_name(cls)) + ":" + sig};
 }
 
@@ -89,7 +93,6 @@ void Ctx::fail(uint32_t cls, const char *sig, const char *fmt, ...) {
     failv(cls, sig, fmt, ap);
 }
 
-static int g_san_seen = 0;
 void Ctx::check_san(const char *where) {
     if (g_san_reports == g_san_seen) return;
     int n = g_san_reports - g_san_seen;
